@@ -22,6 +22,9 @@ Atoms == { a, b, ab, abc, bc, ac, Id0("date"), Id0("k"), one, StrL(<<97>>),
            Coll(ab, "all", Lam(a, Cmp("eq", Attr(a, "b"), b))),
            Coll(a, "any", Lam(x, Cmp("eq", x, Attr(Attr(x, "a"), "b")))),
            Coll(Id0("cs"), "any", Lam(x, Coll(Attr(x, "ds"), "any", Lam(Id0("k"), Cmp("eq", Attr(Id0("k"), "a"), Attr(x, "b")))))),
+           \* nested lambdas binding the SAME name; the outer variable is used again after the inner lambda
+           Coll(Id0("cs"), "any", Lam(x, Bool("and", Coll(Attr(x, "ds"), "any", Lam(x, Cmp("eq", Attr(x, "a"), one))), Cmp("eq", Attr(x, "b"), x)))),
+           Coll(Id0("cs"), "all", Lam(a, Bool("or", Coll(Attr(a, "b"), "all", Lam(a, Cmp("eq", a, b))), Cmp("eq", a, ab)))),
            Coll(a, "any", None), Lst(<<a, ab>>), Cmp("in", a, Lst(<<b, one>>)) }
 Expand(s) == { <<0, y>> : y \in Atoms }
        \cup { <<1, BinNode(o, E, E)>> : o \in {"eq", "and", "add"} }
